@@ -238,3 +238,93 @@ impl Family for FClosure {
         }
     }
 }
+
+/// Nested closures: a middle closure and an inner closure each reference an ordered selection of
+/// the variables of all enclosing functions, so that the upvalue lists of the two levels differ in
+/// length and order (local captures and captures of the parent's upvalues share index ranges).
+pub struct FClosureNest;
+
+impl FClosureNest {
+    const MID: [&'static [&'static str]; 5] = [&[], &["a"], &["b"], &["a", "b"], &["b", "a"]];
+    fn inner_sets() -> Vec<Vec<&'static str>> {
+        let vars = ["a", "b", "m"];
+        let mut out: Vec<Vec<&'static str>> = Vec::new();
+        for x in vars {
+            out.push(vec![x]);
+            for y in vars {
+                if y != x {
+                    out.push(vec![x, y]);
+                    for z in vars {
+                        if z != x && z != y {
+                            out.push(vec![x, y, z]);
+                        }
+                    }
+                }
+            }
+        }
+        out
+    }
+}
+
+impl Family for FClosureNest {
+    fn name(&self) -> &'static str {
+        "F-closure-nest"
+    }
+    fn len(&self) -> u64 {
+        (Self::MID.len() * Self::inner_sets().len() * 2 * 3) as u64
+    }
+    fn case(&self, idx: u64) -> Module {
+        let sets = Self::inner_sets();
+        let mut i = idx;
+        let mid_vars = Self::MID[(i % Self::MID.len() as u64) as usize];
+        i /= Self::MID.len() as u64;
+        let inner_vars = &sets[(i % sets.len() as u64) as usize];
+        i /= sets.len() as u64;
+        let write = i % 2 == 1;
+        i /= 2;
+        let ctx = i; // 0 main, 1 callee with arguments and caller locals, 2 extra level (closure in closure in closure)
+        // inner closure
+        let mut inner_body: Vec<C> = Vec::new();
+        if write {
+            for v in inner_vars.iter() {
+                inner_body.push(sv(v, add(rv(v), int(1000))));
+            }
+        }
+        inner_body.push(C::Return(b(inner_vars.iter().fold(int(0), |acc, v| add(acc, rv(v))))));
+        let inner = if ctx == 2 {
+            // one more level between the middle closure and the innermost one
+            C::Closure(vec![], vec![sv("w", int(7)), sv("deep", C::Closure(vec![], inner_body)), C::Return(b(dcall(rv("deep"), vec![])))])
+        } else {
+            C::Closure(vec![], inner_body)
+        };
+        // middle closure: touches its own selection first (fixes the order of its upvalue list)
+        let mut mid_body: Vec<C> = vec![sv("m", int(100))];
+        for v in mid_vars.iter() {
+            mid_body.push(log2(&format!("mid:{v}"), rv(v)));
+        }
+        mid_body.push(sv("inner", inner));
+        mid_body.push(log2("inner1", dcall(rv("inner"), vec![])));
+        mid_body.push(log2("inner2", dcall(rv("inner"), vec![])));
+        mid_body.push(log2("m", rv("m")));
+        mid_body.push(C::Return(b(rv("inner"))));
+        let mut scope: Vec<C> = vec![sv("a", int(1)), sv("b", int(10)), sv("mid", C::Closure(vec![], mid_body))];
+        scope.push(sv("kept", dcall(rv("mid"), vec![])));
+        scope.push(log2("a", rv("a")));
+        scope.push(log2("b", rv("b")));
+        scope.push(log2("kept", dcall(rv("kept"), vec![])));
+        scope.push(sg("K", rv("kept")));
+        let mut fns: Vec<(String, Func)> = Vec::new();
+        let mut main: Vec<C> = vec![sg("a", int(-1)), sg("b", int(-10)), sg("m", int(-100))];
+        if ctx == 1 {
+            fns.push(("mk".into(), func(&["p", "q"], scope)));
+            main.push(sv("l1", int(5)));
+            main.push(sg("_sink", call("mk", vec![int(31), int(32)])));
+        } else {
+            main.extend(scope);
+        }
+        main.push(log2("after", dcall(rv("K"), vec![])));
+        let mut functions: Vec<(String, Func)> = vec![("main".into(), func(&[], main))];
+        functions.extend(fns);
+        Module { submodules: vec![], functions, imports: vec![] }
+    }
+}
